@@ -38,6 +38,8 @@ type Program struct {
 	byMethod  map[string][]*ssa.Function
 	bySig     map[string][]*ssa.Function
 	fieldMut  map[string]bool
+	storeSets map[*ssa.Function]*storeSet
+	fieldEsc  map[string]bool
 	fieldFns  map[string][]*ssa.Function // struct field -> functions stored into it anywhere in the repository (nil entry: unknown value stored)
 	fieldFnsUnknown map[string]bool
 }
